@@ -423,10 +423,16 @@ func runC07(t *testing.T, r *kit.Run) {
 	// process-level symptoms
 	s := &res.sim
 	r.Out.Trace = s.Trace
+	if r.Replay {
+		r.Out.Goroutines = s.Goroutines
+	}
 	switch {
 	case len(s.Crashes) > 0:
 		r.Out.Violate(cls+"/crash", "%s: panic in library goroutine %s: %s", desc, s.Crashes[0].G, s.Crashes[0].Value)
 		r.Out.Trace = s.Trace
+		if r.Replay {
+			r.Out.Goroutines = s.Goroutines
+		}
 		return
 	case s.CallerPanic != "":
 		r.Out.Violate(cls+"/crash", "%s: panic in the calling goroutine: %s", desc, s.CallerPanic)
@@ -437,6 +443,9 @@ func runC07(t *testing.T, r *kit.Run) {
 	case s.Hang != "" && !s.BodyDone:
 		r.Out.Violate(cls+"/deadlock", "%s: all goroutines blocked: %v", desc, s.Blocked)
 		r.Out.Trace = s.Trace
+		if r.Replay {
+			r.Out.Goroutines = s.Goroutines
+		}
 		return
 	case s.Hang != "":
 		r.Out.Violate(cls+"/goroutine-left-blocked", "%s: goroutines blocked for good after the scanner was closed: %v", desc, s.Blocked)
@@ -456,6 +465,9 @@ func runC07(t *testing.T, r *kit.Run) {
 			if afterStop {
 				r.Out.Violate(cls+"/scan-true-after-stop", "%s: a Scan invoked after the stop had returned delivered %s", desc, cl.id)
 				r.Out.Trace = s.Trace
+				if r.Replay {
+					r.Out.Goroutines = s.Goroutines
+				}
 				return
 			}
 			if sawFalse {
@@ -531,6 +543,9 @@ func runC07(t *testing.T, r *kit.Run) {
 	if res.stopInvoked > 0 && after > allowance {
 		r.Out.Violate(cls+"/stop-consumed-more-input-than-allowed", "%s: reader was at %d of %d when the stop was invoked; %d further bytes were pulled (allowance: rest of the block in flight + one block + 4096 = %d)", desc, posAtStop, len(data), after, allowance)
 		r.Out.Trace = s.Trace
+		if r.Replay {
+			r.Out.Goroutines = s.Goroutines
+		}
 		return
 	}
 	// 3. goroutines
